@@ -563,12 +563,127 @@ def gen_cli():
     return out
 
 
+REVIEWED_GLOBALS = {
+    # (file, scope, name): "constant" (never written after import) | "state" (mutated at run time: modelled in Model/Ctx.v)
+    ("cli.py", ".Cli", "MODEL_CMP_MAPPING"): "constant", ("cli.py", ".Cli", "STRUCTURE_FN_MAPPING"): "constant",
+    ("cli.py", ".Cli", "MODEL_GENERATOR_MAPPING"): "constant", ("generator.py", "", "_static_types"): "constant",
+    ("dynamic_typing/base.py", ".UnknownType", "__slots__"): "constant", ("dynamic_typing/base.py", ".NoneType", "__slots__"): "constant",
+    ("dynamic_typing/base.py", "", "Unknown"): "constant", ("dynamic_typing/base.py", "", "Null"): "constant",
+    ("dynamic_typing/complex.py", ".SingleType", "__slots__"): "constant", ("dynamic_typing/complex.py", ".ComplexType", "__slots__"): "constant",
+    ("dynamic_typing/complex.py", ".StringLiteral", "__slots__"): "constant",
+    ("dynamic_typing/models_meta.py", ".AbsoluteModelRef.Context", "data"): "state",
+    ("dynamic_typing/string_datetime.py", "", "_dt_args_getter"): "constant", ("dynamic_typing/string_datetime.py", "", "_d_args_getter"): "constant",
+    ("dynamic_typing/string_datetime.py", "", "_t_args_getter"): "constant",
+    ("dynamic_typing/string_serializable.py", "", "registry"): "state",
+    ("models/attr.py", ".AttrsModelCodeGenerator", "ATTRS"): "constant", ("models/attr.py", ".AttrsModelCodeGenerator", "ATTRIB"): "constant",
+    ("models/attr.py", ".AttrsModelCodeGenerator", "default_types_style"): "constant",
+    ("models/base.py", "", "keywords_set"): "constant", ("models/base.py", "", "builtins_set"): "constant",
+    ("models/base.py", "", "other_common_names_set"): "constant", ("models/base.py", "", "blacklist_words"): "constant",
+    ("models/base.py", "", "ones"): "constant",
+    ("models/base.py", ".GenericModelCodeGenerator", "BODY"): "constant", ("models/base.py", ".GenericModelCodeGenerator", "STR_CONVERT_DECORATOR"): "constant",
+    ("models/base.py", ".GenericModelCodeGenerator", "FIELD"): "constant", ("models/base.py", ".GenericModelCodeGenerator", "default_types_style"): "constant",
+    ("models/dataclasses.py", ".DataclassModelCodeGenerator", "DC_DECORATOR"): "constant", ("models/dataclasses.py", ".DataclassModelCodeGenerator", "DC_FIELD"): "constant",
+    ("models/pydantic.py", ".PydanticModelCodeGenerator", "PYDANTIC_FIELD"): "constant",
+    ("models/pydantic.py", ".PydanticModelCodeGenerator", "default_types_style"): "constant",
+    ("models/utils.py", "", "T"): "constant", ("models/utils.py", ".PositionsDict", "INC"): "constant",
+}
+
+
+def gen_globals():
+    """whole package: module- and class-level objects that could carry state between calls; writers of the two state cells"""
+    found = {}
+    sources = {}
+    for root, _, files in os.walk(PKG):
+        for f in sorted(files):
+            if not f.endswith(".py"):
+                continue
+            path = os.path.join(root, f)
+            rel = os.path.relpath(path, PKG)
+            src = open(path, encoding="utf8").read()
+            sources[rel] = src
+            tree = ast.parse(src)
+
+            def scan(body, scope):
+                for n in body:
+                    if isinstance(n, (ast.Assign, ast.AnnAssign)):
+                        v = n.value
+                        if v is None:
+                            continue
+                        t = n.targets[0] if isinstance(n, ast.Assign) else n.target
+                        if isinstance(v, (ast.Dict, ast.List, ast.Set, ast.DictComp, ast.ListComp, ast.SetComp, ast.Call)):
+                            found[(rel, scope, ast.unparse(t))] = True
+                    elif isinstance(n, ast.ClassDef):
+                        scan(n.body, scope + "." + n.name)
+            scan(tree.body, "")
+            for n in ast.walk(tree):
+                if isinstance(n, (ast.Global, ast.Nonlocal)):
+                    raise Unsupported(f"{rel}: global/nonlocal statement")
+    new = sorted(k for k in found if k not in REVIEWED_GLOBALS)
+    gone = sorted(k for k in REVIEWED_GLOBALS if k not in found)
+    if new:
+        raise Unsupported("unreviewed module/class-level object(s): " + repr(new))
+    if gone:
+        raise Unsupported("reviewed object(s) disappeared: " + repr(gone))
+    # constants must not be written anywhere in the package
+    allsrc = "\n".join(sources.values())
+    for (rel, scope, name), kind in REVIEWED_GLOBALS.items():
+        if kind != "constant" or name.startswith("__"):
+            continue
+        for pat in (f"{name}.add(", f"{name}.append(", f"{name}.update(", f"{name}.clear(", f"{name}.remove(", f"{name}.pop(",
+                    f"{name}.setdefault(", f"{name}[", f"del {name}"):
+            i = allsrc.find(pat)
+            while i >= 0:
+                ctx = allsrc[max(0, i - 40):i + 60]
+                # reads such as self.MODEL_CMP_MAPPING[name] / STRUCTURE_FN_MAPPING[structure] are fine; assignments are not
+                line = allsrc[allsrc.rfind("\n", 0, i) + 1: allsrc.find("\n", i)]
+                if pat.endswith("[") and not __import__("re").search(r"\b" + name + r"\[[^\]]*\]\s*(=|\+=)[^=]", line):
+                    i = allsrc.find(pat, i + 1)
+                    continue
+                if name in ("resolved_types_style",):
+                    i = allsrc.find(pat, i + 1)
+                    continue
+                raise Unsupported(f"constant {name} is written: {line.strip()}")
+    # per-instance copies: the shared style dict is deep-copied before it is written
+    base_src = sources["models/base.py"]
+    if "resolved_types_style = copy.deepcopy(self.default_types_style)" not in base_src:
+        raise Unsupported("default_types_style is no longer deep-copied per generator")
+    # cached_classmethod (a process-wide cache) must stay unused; cached_method stores on the instance
+    uses = sum(src.count("cached_classmethod") for src in sources.values())
+    if uses != 1:
+        raise Unsupported(f"cached_classmethod is used ({uses} occurrences)")
+    if "setattr(self, '__cache__', {})" not in sources["utils.py"]:
+        raise Unsupported("cached_method no longer stores its cache on the instance")
+    # writers of the state cells
+    writers = []
+    for rel, src in sources.items():
+        for pat, cell in ((".data.context =", "ctx"), ("registry.remove_by_name(", "registry"), ("registry.add(", "registry"),
+                          ("register_datetime_classes()", "registry"), ("self.types.append(", "registry-object"),
+                          ("self.types.remove(", "registry-object"), ("self.replaces.add(", "registry-object"), ("self.replaces.remove(", "registry-object")):
+            c = src.count(pat)
+            if c:
+                writers.append((rel, pat, c))
+    want = [("cli.py", "registry.remove_by_name(", 1), ("cli.py", "register_datetime_classes()", 1),
+            ("dynamic_typing/models_meta.py", ".data.context =", 2),
+            ("dynamic_typing/string_datetime.py", "registry.add(", 3),
+            ("dynamic_typing/string_serializable.py", "registry.add(", 3),
+            ("dynamic_typing/string_serializable.py", "self.types.append(", 1), ("dynamic_typing/string_serializable.py", "self.types.remove(", 1),
+            ("dynamic_typing/string_serializable.py", "self.replaces.add(", 1), ("dynamic_typing/string_serializable.py", "self.replaces.remove(", 1)]
+    if sorted(writers) != sorted(want):
+        raise Unsupported("writers of the state cells changed: " + repr(sorted(writers)))
+    state = sorted(f"{rel}:{scope.lstrip('.')}{'.' if scope else ''}{name}" for (rel, scope, name), k in REVIEWED_GLOBALS.items() if k == "state")
+    out = HEADER.format(src="the whole package")
+    out += "Definition global_cells : list str := [" + "; ".join(coq_str(x) for x in state) + "].\n"
+    out += f"Definition reviewed_constants : nat := {sum(1 for k in REVIEWED_GLOBALS.values() if k == 'constant')}.\n"
+    return out
+
+
 GENERATORS = {
     "Limits": gen_limits,
     "Labels": gen_labels,
     "Cmp": gen_cmp,
     "StrReg": gen_strreg,
     "Cli": gen_cli,
+    "Globals": gen_globals,
 }
 
 
